@@ -280,11 +280,14 @@ func (p *Program) verifyFunc(t *target) (vc *VC, rep *FuncReport) {
 		// never returns normally: nothing to prove about results
 		final = &State{pc: "false", vars: map[types.Object]Val{}, heap: map[string]Val{}}
 	}
-	names := map[string]Val{}
+	var names map[string]Val
+	var resVals []Val
+	emitPosts := func(final *State, suffix string) {
+	names = map[string]Val{}
 	for k, v := range x.entry {
 		names[k] = v
 	}
-	var resVals []Val
+	resVals = nil
 	for _, r := range x.results {
 		resVals = append(resVals, final.vars[r])
 	}
@@ -307,7 +310,7 @@ func (p *Program) verifyFunc(t *target) (vc *VC, rep *FuncReport) {
 			if len(conj) > 1 {
 				name += fmt.Sprintf(".%d", j+1)
 			}
-			x.assertNamed(final, name, "post", g, exprText(cj), token.Position{Filename: en.File, Line: en.Line})
+			x.assertNamed(final, name+suffix, "post", g, exprText(cj), token.Position{Filename: en.File, Line: en.Line})
 			if len(vc.obls) > 0 && len(lemmaHyps) > 0 {
 				vc.obls[len(vc.obls)-1].Extra = append([]string{}, lemmaHyps...)
 			}
@@ -316,6 +319,27 @@ func (p *Program) verifyFunc(t *target) (vc *VC, rep *FuncReport) {
 				lemmaHyps = append(lemmaHyps, implies(final.pc, g))
 			}
 		}
+	}
+	}
+	if c.Opts["split_returns"] && len(x.returns) > 1 {
+		// one set of postcondition obligations per return statement (simpler queries)
+		for k, r := range x.returns {
+			emitPosts(r.st, fmt.Sprintf("@ret%d", k+1))
+		}
+		// names/resVals for the clauses below refer to the merged state
+		names = map[string]Val{}
+		for k, v := range x.entry {
+			names[k] = v
+		}
+		resVals = nil
+		for _, r := range x.results {
+			resVals = append(resVals, final.vars[r])
+		}
+		if len(x.returns) > 0 {
+			x.bindResults(names, x.sig, resVals)
+		}
+	} else {
+		emitPosts(final, "")
 	}
 	for _, ib := range impls {
 		names := map[string]Val{}
